@@ -1,6 +1,11 @@
 import A2Verif.Model.Robust
 import A2Verif.Model.RobustWoz
 import A2Verif.Model.RobustDetok
+import A2Verif.Model.RobustFatChain
+import A2Verif.Lemmas.RobustImd
+import A2Verif.Model.RobustPascal
+import A2Verif.Model.RobustMg2
+import A2Verif.Model.RobustTd0
 /-!
 # C12 — malformed input yields an error, never a crash or hang: the modelled parsing fronts
 
@@ -311,5 +316,447 @@ theorem iDetok_now_no_panic (img : List Nat) : iDetokNow img ≠ .panic := by
   unfold iDetokNow
   rw [h1, h2]
   exact iDetok_fixed_no_panic img
+
+/-! ## FAT cluster chains versus the FAT buffer -/
+
+/-- the range test with the *usable* count keeps `get_cluster` inside a buffer of `fatLen` bytes -/
+theorem fatGet_in_range (typ n : Nat) (fat : List Nat) (u : Nat) (ht : typ = 12 ∨ typ = 16 ∨ typ = 32)
+    (hu : u + 2 ≤ fat.length * 8 / typ) (hn : inRng u n = true) : fatGet typ n fat ≠ .panic := by
+  simp only [inRng, Bool.and_eq_true, decide_eq_true_eq] at hn
+  unfold fatGet
+  rcases ht with h | h | h
+  · subst h
+    have h1 : n + n / 2 + 1 < fat.length := by omega
+    have h0 : n + n / 2 < fat.length := by omega
+    simp [h0, h1]
+  · subst h
+    have h1 : 2 * n + 1 < fat.length := by omega
+    have h0 : 2 * n < fat.length := by omega
+    simp [h0, h1]
+  · subst h
+    have h3 : 4 * n + 3 < fat.length := by omega
+    have h2 : 4 * n + 2 < fat.length := by omega
+    have h1 : 4 * n + 1 < fat.length := by omega
+    have h0 : 4 * n < fat.length := by omega
+    simp [h0, h1, h2, h3]
+
+theorem nextCluster_no_panic (typ n : Nat) (fat : List Nat) (u : Nat) (ht : typ = 12 ∨ typ = 16 ∨ typ = 32)
+    (hu : u + 2 ≤ fat.length * 8 / typ) : nextCluster typ u fat n ≠ .panic := by
+  unfold nextCluster
+  split
+  · simp
+  · rename_i hr
+    have hr' : inRng u n = true := by simpa using hr
+    have := fatGet_in_range typ n fat u ht hu hr'
+    cases hg : fatGet typ n fat with
+    | panic => exact absurd hg this
+    | err => simp
+    | ok v => simp only; split <;> (try split) <;> simp
+
+theorem chainLoop_no_panic (typ : Nat) (fat : List Nat) (u : Nat) (readOk : Nat → Bool) (ht : typ = 12 ∨ typ = 16 ∨ typ = 32)
+    (hu : u + 2 ≤ fat.length * 8 / typ) : ∀ (fuel curr cnt : Nat), chainLoop typ u fat readOk fuel curr cnt ≠ .panic := by
+  intro fuel
+  induction fuel with
+  | zero => intro curr cnt; simp [chainLoop]
+  | succ k ih =>
+    intro curr cnt
+    unfold chainLoop
+    repeat' split
+    all_goals first | exact ih _ _ | (simp; done) | (exfalso; apply nextCluster_no_panic typ curr fat u ht hu; assumption)
+
+/-- `cluster_count_usable` never exceeds what the FAT buffer holds -/
+theorem usableClusters_le (d len typ u : Nat) (h : usableClusters d len typ = .ok u) : u + 2 ≤ len * 8 / typ := by
+  unfold usableClusters at h
+  split at h
+  · simp at h
+  · simp only [Outcome.ok.injEq] at h
+    omega
+
+/-- C12, reading a file or directory of a mounted FAT volume: whatever the first-cluster field and the FAT
+contain, following the chain never indexes outside the FAT buffer and ends after at most `usable` steps —
+provided the FAT has room for at least the two reserved entries (true after `BootSector::verify`: at least one
+sector of at least 512 bytes) and the range test uses the usable count (checked in the source by the translator). -/
+theorem fatFetch_no_panic (d typ : Nat) (fat : List Nat) (readOk : Nat → Bool) (first : Nat)
+    (ht : typ = 12 ∨ typ = 16 ∨ typ = 32) (hcap : 2 ≤ fat.length * 8 / typ) : fatFetch d typ fat readOk first ≠ .panic := by
+  unfold fatFetch
+  cases hu : usableClusters d fat.length typ with
+  | panic =>
+    unfold usableClusters at hu
+    split at hu
+    · omega
+    · simp at hu
+  | err => simp
+  | ok u =>
+    have hle := usableClusters_le d fat.length typ u hu
+    simp only
+    unfold chainWalk
+    split
+    · simp
+    · split
+      · simp
+      · exact chainLoop_no_panic typ fat u readOk ht hle _ _ _
+
+/-- the seeded mutant (range test against the *abstract* count, i.e. the data clusters): a 180K volume has 353
+data clusters and a 512-byte FAT; first cluster 341 is "in range" and the walk indexes byte 512 -/
+example : chainWalk 12 353 (List.replicate 512 0) (fun _ => true) 341 = .panic := by decide +kernel
+example : fatFetch 353 12 (List.replicate 512 0) (fun _ => true) 341 = .err := by decide +kernel
+/-- non-vacuity: a two-cluster chain 2 → 3 → EOC is walked -/
+example : fatFetch 353 12 ([0xFC, 0xFF, 0xFF, 0x03, 0xF0, 0xFF] ++ List.replicate 506 0) (fun _ => true) 2 = .ok 2 := by decide +kernel
+
+/-! ## IMD container -/
+
+def wfTrack (t : ImdTrack) : Prop := wfSecs t.shift t.nsec t.tbuf = true
+
+theorem parseTrack_spec (bytes : List Nat) :
+    parseTrack bytes ≠ .panic ∧ ∀ t extra, parseTrack bytes = .ok (t, extra) → wfTrack t := by
+  unfold parseTrack
+  split
+  · rename_i m cy head nsec shift rest
+    split
+    · simp
+    · split
+      · simp
+      · split
+        · simp
+        · split
+          · simp
+          · rename_i tb r hps
+            refine ⟨by simp, ?_⟩
+            intro t extra h
+            simp only [Outcome.ok.injEq, Prod.mk.injEq] at h
+            obtain ⟨ht, _⟩ := h
+            subst ht
+            exact parseSecs_wf shift nsec _ tb r hps
+  · simp
+
+theorem imdLoop_spec (rem : List Nat) (acc : List ImdTrack) (hacc : ∀ t ∈ acc, wfTrack t) :
+    imdLoop rem acc ≠ .panic ∧ ∀ ts, imdLoop rem acc = .ok ts → ∀ t ∈ ts, wfTrack t := by
+  fun_induction imdLoop rem acc with
+  | case1 acc =>
+    refine ⟨by simp, ?_⟩
+    intro ts h t ht
+    simp only [Outcome.ok.injEq] at h
+    subst h
+    exact hacc t (by simpa using ht)
+  | case2 acc x xs he => simp
+  | case3 acc x xs hp => exact absurd hp (parseTrack_spec (x :: xs)).1
+  | case4 acc x xs t extra hok he => simp
+  | case5 acc x xs t extra hok hp =>
+    have hw := (parseTrack_spec (x :: xs)).2 t extra hok
+    obtain ⟨tb', h1, _⟩ := expandScan_wf t.shift t.nsec t.tbuf hw
+    rw [h1] at hp
+    simp at hp
+  | case6 acc x xs t extra hok tb' hex ih =>
+    apply ih
+    intro u hu
+    simp only [List.mem_cons] at hu
+    rcases hu with hu | hu
+    · subst hu
+      have hw := (parseTrack_spec (x :: xs)).2 t extra hok
+      obtain ⟨tb2, h1, h2⟩ := expandScan_wf t.shift t.nsec t.tbuf hw
+      rw [h1] at hex
+      simp only [Outcome.ok.injEq] at hex
+      subst hex
+      exact h2
+    · exact hacc u hu
+
+theorem capAll_wf : ∀ (ts : List ImdTrack), (∀ t ∈ ts, wfTrack t) → capAll ts ≠ .panic := by
+  intro ts
+  induction ts with
+  | nil => intro _; simp [capAll]
+  | cons t ts ih =>
+    intro h
+    unfold capAll
+    have h1 := capScan_wf t.shift t.nsec t.tbuf (h t (by simp))
+    have h2 := ih (fun u hu => h u (by simp [hu]))
+    cases hc : capScan t.shift t.nsec t.tbuf with
+    | panic => exact absurd hc h1
+    | err => simp
+    | ok n =>
+      simp only
+      cases hd : capAll ts with
+      | panic => exact absurd hd h2
+      | err => simp
+      | ok m => simp
+
+/-- C12, identifying an IMD image: `Imd::from_bytes` returns an image or an error for every byte string — the
+record buffers that `update_from_bytes` accepts are well formed, `expand` keeps them well formed, and the
+re-scans in `expand` and `byte_capacity` (which `panic!` on an unknown type byte and index without a test) only
+ever see well formed buffers.  The track loop terminates because every record consumes at least 5 bytes. -/
+theorem imdFromBytes_no_panic (data : List Nat) : imdFromBytes data ≠ .panic := by
+  unfold imdFromBytes
+  split
+  · simp
+  · split
+    · split
+      · simp
+      · simp only
+        split
+        · simp
+        · split
+          · simp
+          · split
+            · simp
+            · rename_i hp
+              exact absurd hp (imdLoop_spec _ [] (by simp)).1
+            · rename_i tracks hl
+              split
+              · simp
+              · split
+                · simp
+                · simp
+                · rename_i hc
+                  exact absurd hc (capAll_wf tracks ((imdLoop_spec _ [] (by simp)).2 tracks hl))
+    · simp
+
+/-- what the guards are for: the re-scan of a buffer that `update_from_bytes` would *not* have accepted panics
+(unknown type byte 9; a data record cut short) -/
+example : expandScan 0 1 [9] = .panic := by decide
+example : expandScan 0 1 [1, 0, 0] = .panic := by decide
+example : capScan 0 2 [0] = .panic := by decide
+/-- non-vacuity: header, comment "HI", one track of two sectors (one compressed, one unavailable) is accepted;
+without the 0x1A it is refused -/
+def imdSample : List Nat :=
+  [73, 77, 68, 32, 49, 46] ++ List.replicate 23 32 ++ [72, 73, 0x1a] ++ [5, 0, 0, 2, 0, 1, 2, 2, 0xE5, 0]
+example : imdFromBytes imdSample = .ok () := by decide +kernel
+example : imdFromBytes (imdSample.take 31) = .err := by decide +kernel
+
+/-! ## Pascal directory -/
+
+theorem pasGather_length (img : Nat → Option (List Nat)) (hblk : ∀ b v, img b = some v → v.length = 512) :
+    ∀ (k b : Nat) (buf : List Nat), pasGather img k b = some buf → buf.length = 512 * k := by
+  intro k
+  induction k with
+  | zero => intro b buf h; simp [pasGather] at h; subst h; simp
+  | succ k ih =>
+    intro b buf h
+    unfold pasGather at h
+    split at h
+    · simp at h
+    · rename_i v hv
+      cases hg : pasGather img k (b + 1) with
+      | none => simp [hg] at h
+      | some rest =>
+        simp only [hg, Option.map_some, Option.some.injEq] at h
+        subst h
+        rw [List.length_append, hblk b v hv, ih _ _ hg]
+        omega
+
+theorem rd16_ok (xs : List Nat) (i : Nat) (h : i + 1 < xs.length) : ∃ v, rd16 xs i = .ok v := by
+  unfold rd16
+  have h0 : i < xs.length := by omega
+  simp [h0, h]
+
+/-- `get_directory` cannot panic, and what it returns satisfies `num_files ≤ entries.len()` with every entry
+inside the buffer -/
+theorem pasGetDirectory_spec (img : Nat → Option (List Nat)) (hblk : ∀ b v, img b = some v → v.length = 512) :
+    pasGetDirectory img ≠ .panic ∧
+    ∀ d, pasGetDirectory img = .ok d → d.numFiles ≤ d.nEntries ∧ 26 * (d.nEntries + 1) ≤ d.buf.length := by
+  unfold pasGetDirectory
+  cases h2 : img 2 with
+  | none => simp
+  | some b2 =>
+    have hl := hblk 2 b2 h2
+    simp only
+    have hnl : ¬ b2.length < 26 := by omega
+    simp only [hnl, if_false]
+    obtain ⟨v0, e0⟩ := rd16_ok b2 0 (by omega)
+    obtain ⟨v2, e2⟩ := rd16_ok b2 2 (by omega)
+    obtain ⟨v14, e14⟩ := rd16_ok b2 14 (by omega)
+    obtain ⟨v16, e16⟩ := rd16_ok b2 16 (by omega)
+    simp only [e0, e2, e14, e16]
+    split
+    · simp
+    · rename_i hhdr
+      cases hg : pasGather img (v2 - 2) 2 with
+      | none => simp
+      | some buf =>
+        have hlen := pasGather_length img hblk _ _ _ hg
+        simp only
+        have h1 : ¬ buf.length / 26 < 1 := by omega
+        have h2' : ¬ 26 * (buf.length / 26 - 1 + 1) > buf.length := by omega
+        simp only [h1, h2', if_false]
+        split
+        · simp
+        · refine ⟨by simp, ?_⟩
+          intro d hd
+          simp only [Outcome.ok.injEq] at hd
+          subst hd
+          simp only
+          omega
+
+theorem pasScan_no_panic (d : PasDir) (hb : 26 * (d.nEntries + 1) ≤ d.buf.length) :
+    ∀ (k i : Nat), i + k ≤ d.nEntries → pasScan d k i ≠ .panic := by
+  intro k
+  induction k with
+  | zero => intro i _; simp [pasScan]
+  | succ k ih =>
+    intro i hik
+    unfold pasScan
+    have hi : ¬ i ≥ d.nEntries := by omega
+    simp only [hi, if_false]
+    obtain ⟨a, ea⟩ := rd16_ok d.buf (26 * (i + 1)) (by omega)
+    obtain ⟨b, eb⟩ := rd16_ok d.buf (26 * (i + 1) + 2) (by omega)
+    simp only [ea, eb]
+    have := ih (i + 1) (by omega)
+    cases hs : pasScan d k (i + 1) with
+    | panic => exact absurd hs this
+    | err => simp
+    | ok n => simp
+
+/-- C12, identifying/mounting/listing a Pascal volume: for every image content (blocks are 512 bytes, reads
+outside the image fail) loading the directory and scanning its `num_files` entries never slices or indexes out
+of range — this is what the test `num_files ≤ entries.len()` in `get_directory` buys. -/
+theorem pasReadDir_no_panic (img : Nat → Option (List Nat)) (hblk : ∀ b v, img b = some v → v.length = 512) :
+    pasReadDir img ≠ .panic := by
+  unfold pasReadDir
+  have hs := pasGetDirectory_spec img hblk
+  cases hd : pasGetDirectory img with
+  | panic => exact absurd hd hs.1
+  | err => simp
+  | ok d =>
+    have := hs.2 d hd
+    exact pasScan_no_panic d this.2 d.numFiles 0 (by omega)
+
+/-- `read_file`: the guard makes the `u32` subtraction safe -/
+theorem pasEof_no_panic (chunks rem : Nat) : pasEof chunks rem ≠ .panic := by
+  unfold pasEof
+  repeat' split
+  all_goals first | (simp; done) | omega
+
+/-- what the file-count test is for: 19 files claimed in a 1-block directory (18 entries) -/
+example : pasScan ⟨280, 19, List.replicate 512 0, 18⟩ 19 0 = .panic := by decide +kernel
+/-- non-vacuity: a directory of one block (2..3) with no files loads and scans -/
+example : pasReadDir (fun b => if b < 280 then some (if b = 2 then [0, 0, 3, 0, 0, 0, 5] ++ List.replicate 7 65 ++ [24, 1, 0, 0] ++ List.replicate 494 0 else List.replicate 512 0) else none) = .ok 0 := by decide +kernel
+
+/-! ## 2MG container -/
+
+theorem rd32_ok (h : List Nat) (i : Nat) (hi : i + 3 < h.length) : ∃ v, rd32 h i = .ok v := by
+  unfold rd32
+  have h0 : i < h.length := by omega
+  have h1 : i + 1 < h.length := by omega
+  have h2 : i + 2 < h.length := by omega
+  simp [h0, h1, h2, hi]
+
+/-- C12, identifying a 2MG image: for every 64-byte header and every file length `Dot2mg::from_bytes` returns an
+image or an error; the three slices it takes are all preceded by a sufficient length test. -/
+theorem mg2FromBytes_no_panic (hdr : List Nat) (fileLen : Nat) (nib : Bool) (hh : hdr.length = 64) :
+    mg2FromBytes hdr fileLen nib ≠ .panic := by
+  unfold mg2FromBytes
+  split
+  · simp
+  · obtain ⟨v0, e0⟩ := rd32_ok hdr 0 (by omega)
+    obtain ⟨v12, e12⟩ := rd32_ok hdr 12 (by omega)
+    obtain ⟨v20, e20⟩ := rd32_ok hdr 20 (by omega)
+    obtain ⟨v24, e24⟩ := rd32_ok hdr 24 (by omega)
+    obtain ⟨v28, e28⟩ := rd32_ok hdr 28 (by omega)
+    obtain ⟨v32, e32⟩ := rd32_ok hdr 32 (by omega)
+    obtain ⟨v36, e36⟩ := rd32_ok hdr 36 (by omega)
+    obtain ⟨v40, e40⟩ := rd32_ok hdr 40 (by omega)
+    obtain ⟨v44, e44⟩ := rd32_ok hdr 44 (by omega)
+    have hs : ∀ a b : Nat, ¬ fileLen < a + b → sliceOk fileLen a (a + b) = true := by
+      intro a b h
+      simp only [sliceOk, Bool.and_eq_true, decide_eq_true_eq]
+      omega
+    simp only [e0, e12, e20, e24, e28, e32, e36, e40, e44]
+    split
+    · simp
+    · split
+      · simp
+      · split
+        · simp
+        · rename_i hl
+          simp only [hs _ _ hl, Bool.not_true, Bool.false_eq_true, if_false]
+          by_cases hc : fileLen < v32 + v36 <;> by_cases hr : fileLen < v40 + v44
+          · simp only [hc, hr, not_true_eq_false, false_and, if_false]
+            repeat' split
+            all_goals simp
+          · simp only [hc, hs _ _ hr, not_true_eq_false, false_and, if_false, Bool.not_true, Bool.false_eq_true, and_false]
+            repeat' split
+            all_goals simp
+          · simp only [hr, hs _ _ hc, not_true_eq_false, false_and, if_false, Bool.not_true, Bool.false_eq_true, and_false]
+            repeat' split
+            all_goals simp
+          · simp only [hs _ _ hc, hs _ _ hr, Bool.not_true, Bool.false_eq_true, and_false, if_false]
+            repeat' split
+            all_goals simp
+
+/-- non-vacuity: a ProDOS-order 140K payload behind a 64-byte header is accepted; with `blocks` off by one it is refused -/
+def mg2Header (blocks : Nat) : List Nat :=
+  [0x32, 0x49, 0x4D, 0x47, 0x32, 0x4B, 0x49, 0x54, 64, 0, 1, 0, 1, 0, 0, 0, 0, 0, 0, 0, blocks % 256, blocks / 256, 0, 0, 64, 0, 0, 0, 0, 0x30, 2, 0]
+  ++ List.replicate 32 0
+example : mg2FromBytes (mg2Header 280) (64 + 143360) false = .ok () := by decide
+example : mg2FromBytes (mg2Header 281) (64 + 143360) false = .err := by decide
+example : mg2FromBytes (mg2Header 280) (64 + 143359) false = .err := by decide
+
+/-! ## TD0 sector records (partial: the record loop of `Td0::from_bytes` itself is covered by the oracle only) -/
+
+theorem td0Repeated_no_panic (size : Nat) : ∀ (fuel : Nat) (data : List Nat) (h : Nat), data.length ≤ fuel →
+    td0Repeated size data h ≠ .panic := by
+  intro fuel
+  induction fuel with
+  | zero =>
+    intro data h hl
+    have : data = [] := List.length_eq_zero_iff.mp (by omega)
+    subst this
+    unfold td0Repeated
+    split <;> simp
+  | succ k ih =>
+    intro data h hl
+    unfold td0Repeated
+    split
+    · split
+      · apply ih
+        simp only [List.length_cons] at hl
+        omega
+      · simp
+    · split <;> simp
+
+theorem td0RunLength_no_panic (size : Nat) : ∀ (fuel : Nat) (data : List Nat) (h : Nat), td0RunLength size fuel data h ≠ .panic := by
+  intro fuel
+  induction fuel with
+  | zero => intro data h; unfold td0RunLength; split <;> simp
+  | succ k ih =>
+    intro data h
+    unfold td0RunLength
+    repeat' split
+    all_goals first | exact ih _ _ | (simp; done)
+
+theorem td0Payload_no_panic (size enc : Nat) (rest : List Nat) : td0Payload size enc rest ≠ .panic := by
+  unfold td0Payload
+  split
+  · split <;> simp
+  · split
+    · exact td0Repeated_no_panic size rest.length rest 0 (by omega)
+    · split
+      · exact td0RunLength_no_panic size _ rest 0
+      · simp
+
+/-- C12 (partial), reading a TD0 sector: with a size code below 64 — `Td0::from_bytes` refuses codes above 6 —
+`Sector::unpack` returns data or an error for every record content. -/
+theorem td0Unpack_partial (shift flags : Nat) (data : List Nat) (hs : shift < 64) : td0Unpack shift flags data ≠ .panic := by
+  unfold td0Unpack
+  have : ¬ shift ≥ 64 := by omega
+  simp only [this, if_false]
+  split
+  · simp
+  · split
+    · rename_i a b enc rest
+      have := td0Payload_no_panic (128 * 2 ^ shift) enc rest
+      cases hr : td0Payload (128 * 2 ^ shift) enc rest with
+      | panic => exact absurd hr this
+      | err => simp
+      | ok n => simp only; split <;> simp
+    · simp
+
+/-- the three TD0 guards are in the source now (false on a tree without `c12-td0-from-bytes-checks.diff`, where the
+oracle stream `td0/from_bytes` supplies the inputs: no terminator, no tracks, size code 64) -/
+theorem td0Guards_now : Gen.C12Flags.td0ShiftGuard = true ∧ Gen.C12Flags.td0TermGuard = true ∧ Gen.C12Flags.td0TracksGuard = true := by
+  decide
+
+/-- DESIGN §9 item 16, witness: size code 64 -/
+example : td0Unpack 64 0 [5, 0, 1, 64, 0, 0xE5, 0xE5] = .panic := by decide
+example : td0Unpack 0 0 [5, 0, 1, 64, 0, 0xE5, 0xE5] = .ok () := by decide
+example : td0Unpack 0 0 [5, 0, 1, 63, 0, 0xE5, 0xE5] = .err := by decide
 
 end A2Verif.C12
